@@ -13,7 +13,10 @@ CONSTANT MAXLEN
 VARIABLES phase, sc
 Elems == {"N", "O", "P", "D", "C"}      \* C : a control-flow block (no span of its own next to its neighbours)
 Bodies == UNION {[1 .. n -> Elems] : n \in 1 .. MAXLEN}
-Wrappers == {"top", "repeat", "exec", "branch", "loop", "call"}
+Wrappers == {"top", "repeat", "exec", "branch", "loop", "call", "execloc", "callloc"}
+\* a procedure with locals starts and ends with operations of its own (the frame prologue / epilogue, assembly/procedures.md):
+\* a decorator at either end of such a body has an operation to attach to
+Framed(w) == w \in {"execloc", "callloc"}
 Tails == {"none", "O"}
 Erase(b) == SelectSeq(b, LAMBDA e : e # "D")
 HasD(b) == \E i \in 1 .. Len(b) : b[i] = "D"
@@ -24,5 +27,5 @@ Isolated(b) == \E i \in 1 .. Len(b) : b[i] = "D" /\ Reach(b, i, "L") \in {"end",
 Cases == {[wrap |-> w, body |-> [i \in 1 .. Len(b) |-> b[i]], tail |-> t] : w \in Wrappers, b \in {x \in Bodies : HasD(x)}, t \in Tails}
 Init == phase = "init" /\ sc \in Cases
 Next == /\ phase = "init" /\ phase' = "done" /\ sc' = sc
-        /\ PrintT(ToJson([tag |-> "deco", wrap |-> sc.wrap, body |-> sc.body, tail |-> sc.tail, erased |-> Erase(sc.body), isolated |-> Isolated(sc.body)]))
+        /\ PrintT(ToJson([tag |-> "deco", wrap |-> sc.wrap, body |-> sc.body, tail |-> sc.tail, erased |-> Erase(sc.body), isolated |-> Isolated(IF Framed(sc.wrap) THEN <<"O">> \o sc.body \o <<"O">> ELSE sc.body)]))
 =============================================================================
